@@ -47,29 +47,30 @@ class _Bystander:
 
 
 # --------------------------------------------------------------------------------------------
-# Case key "hist" (not read by the model ops): the provider of the line is not new - it was created with ANOTHER width, used
-# (through every entry point: get_and_increment(), next(), __next__(), the file-backed one also current() / create_new(), the
-# 14-bit PUS convenience class), and only THEN switched to the width of the line through the documented `max_bit_width`
-# setter (possibly more than once). The property speaks of "the previous value plus one modulo 2^width": from the switch on,
-# the provider counts like a counter of the NEW width that has reached the same value - which is what the model answers
-# for the line (a derived 2^width remembered from before the switch would make it wrap at the old boundary).
-#   seq_mem_run : "hist": {"phases": [[width, calls, via], ...], "at": c}   the provider stands at c (< 2^width of the line)
-#                 when it is switched; the line's n_calls = c + (calls made after the switch); the values reported are those
-#                 of a new provider of the line's width driven c times, followed by the values of the switched provider
-#   seq_file_run: "hist": {"cls": "file" | "pus", "initial": text | null, "phases": [[width, [steps]], ...], "rewrite": bool}
-#                 steps of a phase: call / current / create (create_new()) / restart; afterwards the file holds the count the
-#                 line's `initial` states (checked; with "rewrite" the file is replaced by `initial`, as another process
-#                 that continued the file would have left it), the live instance is switched to the line's width and the
-#                 line's steps run on it
-#   seq_mem_run, "hist": {"free": true, "phases": [[width, calls, via, count | null], ...], "count": x | null}: switches after
-#                 which the current value does NOT fit the new width (and, where `count` is a public attribute of the provider,
-#                 an out-of-range integer assigned to it right after a switch / before the line's calls). The statement claims
-#                 there that every value returned after the switch lies in [0, 2^width - 1] (and is accepted as packet sequence
-#                 count for width <= 14) and that from the first value after the switch on every value is the previous one
-#                 plus one modulo 2^width; WHICH in-range value comes first is not claimed (a reset to 0 and a reduction modulo
-#                 2^width are both right). Range and successor relation are checked in every phase by the op; the line reports
-#                 the values after the last switch relative to the first of them ((v - v0) mod 2^width), which is what the model
-#                 of a counter of that width answers for the line's n_calls.
+# Histories in which the provider of the line is not new and not of one width: it is created, used (through every entry
+# point: get_and_increment(), next(), __next__(), the file-backed one also current() / create_new(), the 14-bit PUS
+# convenience class) and switched to other widths through the documented `max_bit_width` setter, possibly several times.
+# The width is part of the MODEL's state (Model/SeqCount.lean: MemS / MemOp, WStep / wstep; Props/C19Switch.lean), so the
+# whole history is sent to the Lean op and the complete output trace is compared:
+#   seq_mem_run : "width": w0 (of the constructor), "ops": [["calls", n, via] | ["call"] | ["set_width", w] | ["set_count", c], ...],
+#                 "n_calls": calls made after the history (all three entry points in turn), "rebase": [v, ...].
+#                 Every value of every call is compared EXACTLY with the model's (which mirrors HEAD: count mod 2^width is
+#                 handed out) - except where the statement leaves the value open: the FIRST call after a switch to a width
+#                 the count did not fit, and after an assignment to `count` (a public attribute the statement does not speak
+#                 about). There any value in [0, 2^width - 1] is right (reduction modulo 2^width, a reset to 0, ...); the model
+#                 run is RE-BASED on the value the implementation returned there ("rebase", obtained by the generator from
+#                 the implementation and refreshed by the implementation op if the line is run against another tree; an
+#                 out-of-range value is not taken), and everything after it is compared exactly again. "free" (both sides)
+#                 lists the calls that were open; it is empty for histories in which every switch fits (C19_mem_switch_open_closed:
+#                 the comparison run is then the model). Range, packet-sequence-count acceptance and the successor relation
+#                 are additionally checked on the real values alone (SelfCheckFailure with a readable message).
+#   seq_file_run: "width": w0, "initial": content at the start | null, "steps": ["call" | "current" | "restart" | "delete" |
+#                 "create" | ["set_width", w], ...], "cls": "pus" (first instance = PusFileSeqCountProvider). A restart is a new
+#                 instance of the width in force; results and peeks are compared exactly at every step (a stored value that
+#                 does not fit the width in force is refused with ValueError until create_new(), C19_file_switch_stuck).
+#   seq_file_run with "hist": {..., "rewrite": true}: ANOTHER PROCESS replaced the file between the history and the line's steps
+#                 (not an operation of the provider, so not in the model's alphabet): the history runs harness-side only and the
+#                 line asks the model about a provider of the line's width on the rewritten content.
 # --------------------------------------------------------------------------------------------
 VIAS = ["get_and_increment", "next", "dunder"]
 
@@ -91,24 +92,6 @@ def _switch(p, w: int):
     p.max_bit_width = w
     if int(p.max_bit_width) != w:
         raise SelfCheckFailure(f"max_bit_width reads {p.max_bit_width!r} after it was set to {w}")
-
-
-def _mem_after_history(a):
-    """(provider switched to the line's width, value it stands at) for a seq_mem_run line with the key "hist" """
-    h, w = a["hist"], a["width"]
-    c = h["at"]
-    if not h["phases"] or c < 0 or c >= (1 << w) or c > a["n_calls"]:
-        raise InfraError("malformed line: the history does not end at a value that fits the width of the line")
-    p = None
-    for wk, k, via in h["phases"]:
-        if p is None:
-            p = SeqCountProvider(wk)
-        else:
-            _switch(p, wk)
-        for i in range(k):
-            _call(p, via, i)
-    _switch(p, w)
-    return p, c
 
 
 def _check_run(vals: List[int], w: int, what: str, first: Optional[int] = None):
@@ -135,51 +118,118 @@ def _assign_count(p, x) -> bool:
     return core_tolerant_set(p, "count", x)
 
 
-def _mem_free_history(a):
-    """seq_mem_run line with "hist": {"free": true, ...}: see the comment above"""
-    h, w, n = a["hist"], a["width"], a["n_calls"]
-    p = None
-    story = []
-    for ph in h["phases"]:
-        wk, k, via = ph[0], ph[1], ph[2]
-        cnt = ph[3] if len(ph) > 3 else None
-        if p is None:
-            p = SeqCountProvider(wk)
-            story.append(f"SeqCountProvider({wk})")
+def _entries(a):
+    """the line's history followed by its n_calls calls, as (kind, argument, entry point)"""
+    out = []
+    for e in list(a.get("ops") or []) + [["calls", a["n_calls"], "mixed"]]:
+        if not isinstance(e, list) or not e:
+            raise InfraError(f"malformed line: history entry {e!r}")
+        if e[0] == "call":
+            out.append(("calls", 1, e[1] if len(e) > 1 else "mixed"))
+        elif e[0] == "calls":
+            out.append(("calls", int(e[1]), e[2] if len(e) > 2 else "mixed"))
+        elif e[0] in ("set_width", "set_count"):
+            out.append((e[0], e[1], None))
         else:
-            _switch(p, wk)
-            story.append(f"max_bit_width = {wk}")
-        assigned = _assign_count(p, cnt)
-        if assigned:
-            story.append(f"count = {cnt}")
-        vals = [_call(p, via, i) for i in range(k)]
-        story.append(f"{k} calls")
-        _check_run(vals, wk, "; ".join(story), first=0 if len(story) == 2 else None)
-    if p is None:
-        raise InfraError("malformed line: a history needs phases")
-    _switch(p, w)
-    story.append(f"max_bit_width = {w}")
-    if _assign_count(p, h.get("count")):
-        story.append(f"count = {h['count']}")
-    vals = [_call(p, "mixed", i) for i in range(n)]
-    story.append(f"{n} calls")
-    _check_run(vals, w, "; ".join(story))
-    return {"values": [(v - vals[0]) % (1 << w) for v in vals]}
+            raise InfraError(f"malformed line: history entry {e!r}")
+    return out
+
+
+def _open_calls(w0: int, entries, vals: List[int]):
+    """(calls whose value the statement leaves open, the implementation's values there) - the rule of the Lean comparison
+    run `memRunOpen`, word for word: the count is the MODEL's (HEAD's arithmetic) everywhere, re-based on the implementation's
+    value, if that is in range, at an open call"""
+    count, w, is_open, k = 0, w0, False, 0
+    free, rebase = [], []
+    for kind, x, _via in entries:
+        if kind == "set_width":
+            w = x
+            if not 0 <= count < (1 << w):
+                is_open = True
+        elif kind == "set_count":
+            count, is_open = x, True
+        else:
+            top = 1 << w
+            for _ in range(x):
+                if k >= len(vals):
+                    return free, rebase
+                if is_open:
+                    free.append(k)
+                    rebase.append(vals[k])
+                    if 0 <= vals[k] < top:
+                        count = vals[k]
+                    is_open = False
+                count = (count % top + 1) % top
+                k += 1
+    return free, rebase
+
+
+def _drive_mem(w0: int, entries, check: bool):
+    """runs the history on a real SeqCountProvider; returns the values of all calls. With `check`, the statement is checked
+    on the real values alone for every stretch of calls at one width (range, packet sequence count, successor relation)"""
+    p = SeqCountProvider(w0)
+    story = [f"SeqCountProvider({w0})"]
+    vals: List[int] = []
+    w, seg, fresh = w0, [], True
+
+    def flush():
+        nonlocal seg, fresh
+        if check and seg:
+            _check_run(seg, w, "; ".join(story), first=0 if fresh else None)
+        if seg:
+            fresh = False
+        seg = []
+
+    for kind, x, via in entries:
+        if kind == "set_width":
+            flush()
+            _switch(p, x)
+            w = x
+            story.append(f"max_bit_width = {x}")
+        elif kind == "set_count":
+            flush()
+            fresh = False
+            # a provider without a public data attribute `count`, or one whose setter refuses the value, is not driven this
+            # way; the model run treats the call after it as open in any case and is re-based on what the provider returns
+            if _assign_count(p, x):
+                story.append(f"count = {x}")
+        else:
+            got = [int(_call(p, via, i)) for i in range(x)]
+            story.append(f"{x} calls")
+            seg += got
+            vals += got
+    flush()
+    return vals
+
+
+def _mem_history(a):
+    entries = _entries(a)
+    vals = _drive_mem(a["width"], entries, True)
+    free, rebase = _open_calls(a["width"], entries, vals)
+    if list(a.get("rebase") or []) != rebase:
+        # the line was derived from the output of another tree (replay, shrinking): the values the model run is re-based on are
+        # this implementation's, by definition
+        a["rebase"] = rebase
+    return {"values": vals, "free": free}
+
+
+def mem_rebase(w0: int, ops, n_after: int) -> List[int]:
+    """generator side: the values the real provider returns at the open calls of the history (nothing if it cannot be driven
+    that far - the evaluation of the line then reports what happened)"""
+    a = {"width": w0, "ops": ops, "n_calls": n_after}
+    try:
+        entries = _entries(a)
+        return _open_calls(w0, entries, _drive_mem(w0, entries, False))[1]
+    except InfraError:
+        raise
+    except Exception:  # noqa
+        return []
 
 
 def op_seq_mem_run(a):
     w, n = a["width"], a["n_calls"]
-    if a.get("hist") and a["hist"].get("free"):
-        return _mem_free_history(a)
-    if a.get("hist"):
-        p, c = _mem_after_history(a)
-        ref = SeqCountProvider(w)
-        vals = [int(ref.get_and_increment()) for _ in range(c)]
-        vals += [int(_call(p, "mixed", i)) for i in range(n - c)]
-        if w <= 14:
-            for v in vals[c:c + 600]:
-                _acceptable(v)
-        return {"values": vals}
+    if a.get("ops") is not None:
+        return _mem_history(a)
     wb = 3 if w != 3 else 2
     other = _Bystander(SeqCountProvider(wb), wb, "a second SeqCountProvider") if n % 2 else None
     p = SeqCountProvider(w)
@@ -277,14 +327,19 @@ def _file_after_history(a, path: Path):
 
 
 def op_seq_file_run(a):
-    w = a["width"]
+    w = a["width"]            # the width in force: changed by ["set_width", w] steps
     with _Dir() as path:
         if a.get("hist"):
             prov = _file_after_history(a, path)
         else:
             if a["initial"] is not None:
                 path.write_bytes(a["initial"].encode("ascii"))
-            prov = FileSeqCountProvider(w, path)
+            if a.get("cls") == "pus":
+                if w != 14:
+                    raise InfraError("malformed line: the PUS provider has 14 bits")
+                prov = seqmod.PusFileSeqCountProvider(path)
+            else:
+                prov = FileSeqCountProvider(w, path)
         wb = 2 if w != 2 else 3
         other = _Bystander(FileSeqCountProvider(wb, path.with_name("other-" + FILE_NAME)), wb, "a second FileSeqCountProvider on another file")
         results: List[Any] = []
@@ -294,7 +349,7 @@ def op_seq_file_run(a):
             if i < 6 or i == len(a["steps"]) - 1:
                 other.call()
             if st == "call":
-                r = _outcome((lambda: next(prov)) if i % 2 else prov.get_and_increment)
+                r = _outcome(lambda: _call(prov, "mixed", i))
                 if isinstance(r, int) and w <= 14:
                     _acceptable(r)
             elif st == "current":
@@ -306,8 +361,15 @@ def op_seq_file_run(a):
                 if path.exists():
                     os.remove(path)
                 r = None
+            elif st == "create":
+                prov.create_new()
+                r = None
+            elif isinstance(st, list) and len(st) == 2 and st[0] == "set_width":
+                _switch(prov, st[1])
+                w = st[1]
+                r = None
             else:
-                raise AssertionError(st)
+                raise InfraError(f"malformed line: step {st!r}")
             results.append(r)
             peeks.append(_peek(w, path))
             files.append(_raw(path))
@@ -390,7 +452,7 @@ def mixed_steps(rng: random.Random, n: int, p_delete: float = 0.0) -> List[str]:
 class C19(Prop):
     id = "C19"
     title = "Sequence counters count modulo 2^width, stay in range and survive restarts"
-    lean_modules = ["SpVerif.Props.C19"]
+    lean_modules = ["SpVerif.Props.C19", "SpVerif.Props.C19Switch"]
     exhaustive_note = ("every ASCII character (0..127) alone, after, before and between digits as file content for two widths; "
                        "complete cycles (2*2^w+3 calls, beyond two wrap-arounds) of both providers for widths 1,2,3,8 "
                        "(in-memory provider also 14 and 16) on every run; thorough tier: complete cycles of the "
@@ -406,15 +468,16 @@ class C19(Prop):
         "POSIX text mode: os.linesep is '\\n' and the default encoding maps ASCII octets to the same characters",
         "the first line is shorter than CPython's integer string conversion limit (4300 digits) and width < 14000",
         "the file is not touched by anyone else between two operations; crash points inside a call are outside the statement",
-        "the width is a non-negative integer; when it is changed through the documented max_bit_width setter in the middle of a "
-        "history (case key 'hist'), the provider is compared from there on with the model of a counter of the new width: "
-        "standing at the same value when that value fits the new width (exact reference); when it does not fit (in-memory "
-        "provider: also after an out-of-range integer was assigned to the public `count` attribute), the statement is read as "
-        "'every value returned from then on lies in [0, 2^width - 1], is accepted as packet sequence count for width <= 14, and is "
-        "the previous value plus one modulo 2^width' - which in-range value comes first is not claimed (reset to 0 and reduction "
-        "modulo 2^width are both accepted; the values are compared with the model relative to the first one). The file-backed "
-        "provider refuses a stored value that does not fit the new width with ValueError on every call until create_new(), like "
-        "the model of the new width does",
+        "the width is a non-negative integer. A width changed through the documented max_bit_width setter in the middle of a "
+        "history is part of the model (MemOp.setWidth / WStep.setWidth) and the whole output trace is compared exactly. Where the "
+        "statement leaves a value open - the FIRST call of the in-memory provider after a switch to a width its count did not fit, "
+        "or after an integer was assigned to the public `count` attribute (about which the statement says nothing; negative "
+        "integers included) - any value in [0, 2^width - 1] is accepted (HEAD: count mod 2^width; a reset to 0 would be as right) and "
+        "the model run continues from the value the implementation returned (memRunOpen, key 'rebase'); every later value is exact "
+        "again. The file-backed provider refuses a stored value that does not fit the width in force with ValueError on every call "
+        "until create_new(), exactly like the model (C19_file_switch_stuck)",
+        "a file rewritten by another process between two operations (case key 'hist' with 'rewrite') is not an operation of the "
+        "model: the line then asks the model about a provider of the line's width on the rewritten content only",
     ]
 
     def impl_ops(self):
@@ -435,7 +498,7 @@ class C19(Prop):
     def nontrivial(self, c: Case) -> bool:
         o = c.op
         if o["op"] == "seq_mem_run":
-            return o["n_calls"] > 0
+            return o["n_calls"] > 0 or any(e[0] in ("call", "calls") for e in (o.get("ops") or []))
         if o["op"] == "seq_file_run":
             return len(o["steps"]) > 0
         return True
@@ -472,7 +535,7 @@ class C19(Prop):
             if w <= 8:
                 yield run(w, None, mixed_steps(rng, 3 * n), f"file-cycle-w{w}-mixed")
         # --- widths 14 / 16 (and all others): start from a hand-written file near the maximum -----
-        for w in WIDTHS:
+        for w in WIDTHS + [54, 64]:       # (54, 64: beyond the precision of a double - a bound computed in floating point is off by one there)
             mx = (1 << w) - 1
             for k in (0, 1, 2, 5):
                 start = max(mx - k, 0)
@@ -518,8 +581,23 @@ class C19(Prop):
 
     # ------------------------------------------------------------------------------------------
     def gen_width_switch(self, rng: random.Random, thorough: bool) -> Iterator[Case]:
+        def history(phases, w_new, count=None):
+            """[[width, calls, via(, count)], ...] then a switch to w_new (then `count` assigned) as the line's width and ops"""
+            ops = []
+            for k, ph in enumerate(phases):
+                if k:
+                    ops.append(["set_width", ph[0]])
+                if len(ph) > 3 and ph[3] is not None:
+                    ops.append(["set_count", ph[3]])
+                ops.append(["calls", ph[1], ph[2]])
+            ops.append(["set_width", w_new])
+            if count is not None:
+                ops.append(["set_count", count])
+            return phases[0][0], ops
+
         def mem(phases, w_new, n_after, tag):
-            """in-memory provider: phases = [[width, calls, via], ...]; None if a switch would leave the value out of range"""
+            """in-memory provider: phases = [[width, calls, via], ...]; None if a switch would leave the value out of range
+            (those histories are generated by free() below). No call is open: the whole trace is compared exactly."""
             v = 0
             for wk, k, _via in phases:
                 if v >= (1 << wk):
@@ -527,8 +605,8 @@ class C19(Prop):
                 v = (v + k) % (1 << wk)
             if v >= (1 << w_new):
                 return None
-            return Case({"op": "seq_mem_run", "width": w_new, "n_calls": v + n_after,
-                         "hist": {"phases": [list(ph) for ph in phases], "at": v}}, "valid", tag=tag)
+            w0, ops = history(phases, w_new)
+            return Case({"op": "seq_mem_run", "width": w0, "n_calls": n_after, "ops": ops, "rebase": []}, "valid", tag=tag)
 
         def span(w_old, w_new):
             """calls after the switch that cross the old and the new boundary at least once, whatever the start"""
@@ -565,8 +643,10 @@ class C19(Prop):
 
         # ---- in-memory provider, switches the current value does NOT fit (and `count` assigned out of range) ----
         def free(phases, w_new, n_after, tag, count=None):
-            return Case({"op": "seq_mem_run", "width": w_new, "n_calls": n_after,
-                         "hist": {"free": True, "phases": [list(ph) for ph in phases], "count": count}}, "valid", tag=tag)
+            """any history: the calls the statement leaves open are re-based on what the provider returns there"""
+            w0, ops = history(phases, w_new, count)
+            return Case({"op": "seq_mem_run", "width": w0, "n_calls": n_after, "ops": ops,
+                         "rebase": mem_rebase(w0, ops, n_after)}, "valid", tag=tag)
 
         vias = VIAS + ["mixed"]
         for w_old in small:
@@ -586,9 +666,9 @@ class C19(Prop):
             w_new = rng.choice(small + [14])
             yield free(phases, w_new, 2 * min(1 << w_new, 64) + 3, "switch-mem-chain-any")
         # `count` (a public attribute) set to an integer outside the width, with and without a switch
-        for w in small + [14, 16]:
+        for w in small + [14, 16, 54, 64]:
             top = 1 << w
-            for x in (top, top + 5, 3 * top + 1, -1, -top - 3, (1 << 64) + 3, 10 ** 30, top - 1, 0):
+            for x in (top, top + 5, 3 * top + 1, -1, -top - 3, (1 << 64) + 3, 10 ** 30, top - 1, top - 2, 0):
                 k = rng.randint(0, 2 * min(top, 40))
                 yield free([[w, k, rng.choice(vias)]], w, min(top, 40) + 3, "count-assigned", count=x)
                 w2 = rng.choice(small)
@@ -604,16 +684,31 @@ class C19(Prop):
             return v
 
         def file(phases, w_new, steps, tag, cls="file", initial0=None, rewrite=None):
-            """phases = [[width, [steps]], ...]; None if a phase would start with a stored value outside its width"""
+            """phases = [[width, [steps]], ...], then the switch to w_new and the steps. The whole history is one line for
+            the model (a stored value that does not fit a width is refused there like in the code); only when ANOTHER PROCESS
+            rewrites the file in between (`rewrite`) the history stays harness-side (key "hist") and must then be one the
+            stored value fits at every switch."""
+            if rewrite is None:
+                line = []
+                for k, (wk, sts) in enumerate(phases):
+                    if k:
+                        line.append(["set_width", wk])
+                    line += list(sts)
+                line.append(["set_width", w_new])
+                op = {"op": "seq_file_run", "width": phases[0][0], "initial": None if initial0 is None else f"{initial0}\n",
+                      "steps": line + list(steps)}
+                if cls != "file":
+                    op["cls"] = cls
+                return Case(op, "valid", tag=tag, keys=RUN_KEYS)
             v = 0 if initial0 is None else int(initial0)
             for wk, sts in phases:
                 if v >= (1 << wk):
                     return None
                 v = advance(v, wk, sts)
             hist = {"cls": cls, "initial": None if initial0 is None else f"{initial0}\n", "phases": [[wk, list(sts)] for wk, sts in phases],
-                    "rewrite": rewrite is not None}
-            return Case({"op": "seq_file_run", "width": w_new, "initial": rewrite if rewrite is not None else f"{v}\n",
-                         "steps": steps, "hist": hist}, "valid", tag=tag, keys=RUN_KEYS)
+                    "rewrite": True}
+            return Case({"op": "seq_file_run", "width": w_new, "initial": rewrite, "steps": steps, "hist": hist}, "valid", tag=tag,
+                        keys=RUN_KEYS)
 
         def used(rng, k):
             """k uses of the live instance through every entry point (calls and current()), ending with a use"""
